@@ -55,7 +55,7 @@ func (*ZapPlugin) Merge(segments []seg.Segment, drops []*roaring.Bitmap, path st
 func mergeSegmentBases(segmentBases []*SegmentBase, drops []*roaring.Bitmap, path string,
 	chunkMode uint32, closeCh chan struct{}, s seg.StatsReporter) (
 	[][]uint64, uint64, error) {
-	flag := os.O_RDWR | os.O_CREATE
+	flag := os.O_RDWR | os.O_CREATE | os.O_TRUNC
 
 	f, err := os.OpenFile(path, flag, 0600)
 	if err != nil {
